@@ -11,7 +11,7 @@ use proptest::prelude::*;
 use serde::{Deserialize, Serialize};
 use serde_json::json;
 
-pub const RULE: &str = "generated: header multiset (names in any case, repeated names, values with visible bytes, 0x80-0xFF, tabs, spaces) x signed subset, reference-signed and accepted; then ONE edit with the OLD signature: of a signed header (value byte, outer spaces, inner space runs, inserted space, tab for space, add/remove/swap values, value letter case), of header-name case, of the arrival order across different names, or of an unconsulted header (insert, delete, modify, duplicate). Oracle: the edited request is accepted iff the reference model's canonical header block (lower-cased sorted names, trimmed/collapsed values, comma-joined in arrival order) and requirement verdict are unchanged -- i.e. model Accept => crate Ok, model Reject => crate refuses. Non-trivial: the edit was applied to a request the crate accepted before the edit; must-stay-valid and must-become-invalid classes are counted separately; distinct by (request digest, edit).";
+pub const RULE: &str = "generated: header multiset (names in any case, repeated names, values with visible bytes, 0x80-0xFF, tabs, spaces) x signed subset, reference-signed -- the request is plain in every other dimension, so it must be accepted (the reference canonical header block is the only non-trivial ingredient); then ONE edit with the OLD signature: of a signed header (value byte, outer spaces, inner space runs, inserted space, tab for space, add/remove/swap values, value letter case), of header-name case, of the arrival order across different names, or of an unconsulted header (insert, delete, modify, duplicate). Oracle: the edited request is accepted iff the reference model's canonical header block (lower-cased sorted names, trimmed/collapsed values, comma-joined in arrival order) and requirement verdict are unchanged -- i.e. model Accept => crate Ok, model Reject => crate refuses. Non-trivial: the edit was applied to a request the crate accepted before the edit; must-stay-valid and must-become-invalid classes are counted separately; distinct by (request digest, edit).";
 
 #[derive(Clone, Debug, Serialize, Deserialize)]
 pub enum HEdit {
@@ -59,7 +59,7 @@ pub fn hedit() -> BoxedStrategy<HEdit> {
 
 pub fn header_plan() -> BoxedStrategy<Plan> {
     plan(PlanOpts {
-        logical: LogicalOpts { max_segments: 1, max_query: 1, max_headers: 6, body_class: 0, raw_segments: false },
+        logical: LogicalOpts { max_segments: 0, max_query: 0, max_headers: 6, body_class: 0, raw_segments: false },
         allow_s3: false,
         allow_fold: false,
         form_bodies: false,
@@ -238,10 +238,19 @@ pub fn check_edit(hc: &HeaderCase, cc: &mut CaseCtx) -> CheckResult {
     };
     let a0 = analyze(&built.case);
     let o0 = exec::run(&built.case);
-    if !a0.verdict().is_accept() || !o0.res.is_ok() {
-        // completeness problems belong to C02; this property is about the effect of edits
-        cc.class("baseline-not-accepted");
+    if !a0.verdict().is_accept() {
+        cc.class("baseline-unspecified");
         return Ok(());
+    }
+    if !o0.res.is_ok() {
+        // The generated requests are plain in every other dimension (root path, no query, no body, no folding):
+        // the reference canonical header block is the only non-trivial ingredient of the signature, so a refusal
+        // means the crate canonicalises these headers differently from the form the property defines.
+        check_total(&o0)?;
+        return Err(Failure::new(
+            "correctly-signed-headers-refused",
+            format!("request signed over the reference canonical headers (signed: {:?}) is refused: {}", a0.signed_headers, o0.res.short()),
+        ));
     }
     let mut case = built.case.clone();
     let Some(label) = apply(&hc.edit, &mut case.req) else {
